@@ -3,6 +3,7 @@
    reading side and the raw-number grammar: a raw number holds exactly an RFC 8259 number. *)
 From Coq Require Import List NArith ZArith Lia.
 From SonicV Require Import Model.SkipNum Model.Number.
+From SonicV Require Spec.Num Model.F32Refuted.
 Import ListNotations.
 
 (* the scanner that validates raw numbers (bare or quoted) accepts exactly the RFC numbers *)
@@ -16,3 +17,11 @@ Proof. exact skip_num_complete. Qed.
 (* integers printed in decimal read back exactly: up to 19 digits the accumulator equals the value *)
 Theorem decimal_digits_read_back : forall ds, Forall is_dig ds -> (length ds <= 19)%nat -> wrap_acc ds = dvalue ds.
 Proof. exact wrap_acc_exact. Qed.
+
+(* known finding F32 as a fact about the specification: reading a decimal into f32 through f64 ("narrowed
+   once", what C07 prescribes) is not f32 rounding -- the shortest printout 7.038531e-26 of the f32
+   0x15ae43fd has as its nearest f64 the exact midpoint of two f32 and narrows to 0x15ae43fe *)
+Theorem f32_round_trip_refuted_by_double_rounding :
+  F32Refuted.direct_f32 F32Refuted.lit_7038531em26 = Num.Bits 363742205 /\
+  (exists b64, Num.round_f64 (Num.parse_lit F32Refuted.lit_7038531em26) = Num.Bits b64 /\ Num.narrow_f32 b64 = Some 363742206%Z).
+Proof. exact F32Refuted.f32_through_f64_is_not_f32_rounding. Qed.
